@@ -69,7 +69,7 @@ Definition classify_e (qc : Quirks) (k : ecase) : Z :=
     (if e_agrees mq (ce_obs k) then 0 else if guard then 2 else 4)
   else
     match ce_alt k with
-    | Some t' => if e_agrees (run_expr qc t') (ce_obs k) then 5 else 1
+    | Some t' => if e_agrees (run_expr qc t') (ce_obs k) || e_agrees (run_expr quirks_off t') (ce_obs k) then 5 else 1
     | None =>
         if guard then 1
         else let m := kmask (fun q => run_expr q t) res_eqb qc in
